@@ -28,6 +28,9 @@ type Params struct {
 	Pre         *ecdsa.PreSignature
 	DR          *doerner.ConfigReceiver
 	DS          *doerner.ConfigSender
+	// TrueT: set when the key material was produced by library code under test (BIP-32 derivation): the
+	// threshold of the sharing it was derived from, which the predicate trusts instead of the object's own field.
+	TrueT *int `json:",omitempty"`
 }
 
 func (p *Params) clone() *Params {
